@@ -106,7 +106,7 @@ func fpLit(f float64) string {
 func (e *Engine) strlen(st *State, s string) string {
 	e.declStrFuns()
 	t := "(strlen " + s + ")"
-	st.assume("(bvsge " + t + " #x0000000000000000)")
+	st.assume("(and (bvsge " + t + " #x0000000000000000) (bvsle " + t + " #x0001000000000000))")
 	return t
 }
 
